@@ -53,7 +53,25 @@ func (fe *FuncEnc) doCall(f *Frame, x *ssa.Call, st *State, path Term) {
 	for i := off; i < len(c.Args); i++ {
 		args = append(args, fe.valAs(c.Args[i], params.At(i-off).Type()))
 	}
+	var pre *State
+	exPre, mayExit := st.heap["G_io_Exited"]
+	if mayExit && exPre.S != "false" && callee.String() != "os.Exit" {
+		pre = st.clone()
+	}
 	res := fe.callStatic(f, callee, args, c.Args, st, path, x.Pos())
+	if pre != nil {
+		// nothing happens after the process has exited
+		for k, v := range st.heap {
+			old, ok := pre.heap[k]
+			if !ok {
+				old = fe.comp(pre, k, fe.eng.compSorts[k])
+			}
+			if old.S != v.S {
+				st.heap[k] = fe.define(k, tIte(exPre, old, v))
+			}
+		}
+	}
+	f.curSt = st
 	fe.setResults(f, x, res)
 }
 
@@ -752,6 +770,9 @@ func (e *Engine) blockWrites(fn *ssa.Function, b *ssa.BasicBlock, d map[string]b
 			} else if n, ok := elem.(*types.Named); ok {
 				d["A_X_"+sanitize(so.shortTypeName(n))] = true
 				d["X_"+sanitize(so.shortTypeName(n))] = true
+				if so.shortTypeName(n) == "strings.Builder" {
+					d["XS_strings_Builder"] = true
+				}
 			} else {
 				d["A_C_"+sortKey(so.sortOf(elem))] = true
 				d["C_"+sortKey(so.sortOf(elem))] = true
@@ -773,7 +794,7 @@ func (e *Engine) blockWrites(fn *ssa.Function, b *ssa.BasicBlock, d map[string]b
 					if stt, ok := n.Underlying().(*types.Struct); ok {
 						for _, r := range *x.Referrers() {
 							switch r.(type) {
-							case *ssa.UnOp, *ssa.FieldAddr, *ssa.DebugRef, *ssa.Store:
+							case *ssa.UnOp, *ssa.FieldAddr, *ssa.DebugRef, *ssa.Store, *ssa.BinOp:
 							default:
 								d["A_H_"+sanitize(so.shortTypeName(n))] = true
 								for i := 0; i < stt.NumFields(); i++ {
